@@ -430,12 +430,13 @@ type ReplayFile struct {
 	Inputs   map[string]string `json:"inputs"`
 	Repeat   int               `json:"replay_repeat,omitempty"`
 	Synctest bool              `json:"synctest,omitempty"`
+	Schedule *SchedInfo        `json:"schedule,omitempty"`
 	Howto    string            `json:"howto"`
 }
 
 func writeReplay(path, id string, in *jobInst, f *FindingJSON) {
 	rf := ReplayFile{Property: id, Pkg: in.spec.Pkg, Harness: in.spec.Fn, Case: in.cs, Kind: f.Kind, Label: f.Label, Pos: f.Pos, Stack: f.Stack, Inputs: f.Inputs,
-		Synctest: in.spec.Synctest, Repeat: in.spec.Repeat, Howto: "bin/vsym replay " + path + "   (runs the harness natively against /repo with these inputs via go test -overlay)"}
+		Synctest: in.spec.Synctest, Repeat: in.spec.Repeat, Schedule: f.Sched, Howto: "bin/vsym replay " + path + "   (runs the harness natively against /repo with these inputs via go test -overlay)"}
 	d, _ := json.MarshalIndent(rf, "", " ")
 	os.WriteFile(path, d, 0o644)
 }
@@ -477,6 +478,44 @@ func nativeReplay(work, replayPath string) (bool, string) {
 					break
 				}
 			}
+		}
+	}
+	if rf.Schedule != nil {
+		// force the recorded schedule: insert vfSched("<file:line>") before the statements at the
+		// recorded scheduling points, in overlay copies of the repo files (and of the harness files)
+		byFile := map[string]map[int]string{}
+		for _, pt := range rf.Schedule.Points {
+			i := strings.LastIndexByte(pt, ':')
+			if i < 0 || strings.HasPrefix(pt, "spawn:") {
+				continue
+			}
+			var line int
+			fmt.Sscanf(pt[i+1:], "%d", &line)
+			f := filepath.Join(repoDir, pt[:i])
+			if byFile[f] == nil {
+				byFile[f] = map[int]string{}
+			}
+			byFile[f][line] = pt
+		}
+		k := 1000
+		for f, lines := range byFile {
+			var src []byte
+			if local, ok := repl[f]; ok {
+				src, _ = os.ReadFile(local)
+			} else {
+				src, _ = os.ReadFile(f)
+			}
+			if src == nil {
+				continue
+			}
+			out, err := instrumentSource(f, src, lines)
+			if err != nil {
+				return false, "cannot instrument " + f + ": " + err.Error()
+			}
+			k++
+			local := filepath.Join(dir, fmt.Sprintf("s%d_%s", k, filepath.Base(f)))
+			os.WriteFile(local, out, 0o644)
+			repl[f] = local
 		}
 	}
 	sort.Strings(names)
